@@ -25,7 +25,7 @@ KEYS = ["M7"]
 
 
 def jobs(tier, mutant=None):
-    return planjobs.select(tier, KEYS, r'\bC17\b', mutant) + scanjobs.select(tier, ["S1", "S2"], r'\bC17\b', mutant)
+    return planjobs.select(tier, KEYS, r'\bC17\b', mutant) + scanjobs.select(tier, ["S1", "S2", "S3"], r'\bC17\b', mutant)
 
 
 def _m(target, old, new):
